@@ -639,6 +639,20 @@ func c18RunCallG(out *zzverif.Out, c *c18Case, fix bool, realS *Sampler, r float
 	}
 	raw := c18Toks(c.logits)
 	L := topK(c18Toks(c.logits), s.topK)
+	// recorded assumption of `reproducible_with_any_sort`: the real top-k stage (pdqsort / container/heap) is a
+	// FUNCTION of its input — run it a second time on a fresh copy, the two outputs must be identical
+	if Lb := topK(c18Toks(c.logits), s.topK); !hasNaN {
+		out.Count("topk_determinism_checked")
+		same := len(Lb) == len(L)
+		for i := 0; same && i < len(L); i++ {
+			if L[i].id != Lb[i].id || math.Float32bits(L[i].value) != math.Float32bits(Lb[i].value) {
+				same = false
+			}
+		}
+		if !same {
+			out.L2("topk-not-deterministic", line, fmt.Sprintf("call=%d: two runs of the real topK on the same tokens differ", idx))
+		}
+	}
 	if !(sortPath && hasNaN) && n <= 5000 { // (the oracle's IsTopK check is quadratic)
 		shown := L
 		if sortPath && n > 12 {
@@ -749,6 +763,29 @@ func c18RunCallG(out *zzverif.Out, c *c18Case, fix bool, realS *Sampler, r float
 						}
 					}
 				}
+				// the residual guard of `runGood_from_input` (model: massFinite): the normaliser is positive and
+				// finite, every probability and every cumulative sum of the kept tokens is below +Inf
+				massBad := false
+				{
+					mx := c18NegInf
+					for _, v := range sv {
+						if v > mx {
+							mx = v
+						}
+					}
+					var se float32
+					for _, v := range sv {
+						se += float32(math.Exp(float64(v - mx)))
+					}
+					if !(se > 0) || !(se < c18PosInf) {
+						massBad = true
+					}
+					for _, v := range pv {
+						if !(v < c18PosInf) {
+							massBad = true
+						}
+					}
+				}
 				if km == "panic" || len(fm) == 0 {
 					flags = append(flags, "empty")
 				} else {
@@ -764,6 +801,11 @@ func c18RunCallG(out *zzverif.Out, c *c18Case, fix bool, realS *Sampler, r float
 					if c18HasNaN(cum) {
 						nanSeen = true
 					}
+					for _, v := range cum {
+						if !(v < c18PosInf) {
+							massBad = true
+						}
+					}
 					cumF = cum
 					pickVals, pickCum, pickIds = c18Vals(fm), cum, nil
 					for _, t := range fm {
@@ -773,12 +815,15 @@ func c18RunCallG(out *zzverif.Out, c *c18Case, fix bool, realS *Sampler, r float
 				if nanSeen {
 					flags = append(flags, "nan")
 				}
+				if massBad {
+					flags = append(flags, "mass")
+				}
 				baseFlags = flags
 				haveBase = true
 				status = c18Status(baseFlags, cumF, r)
 				if status == "ok" {
 					out.Count("contract_ok")
-				} else if c.weird && status == "bad:nan" {
+				} else if c.weird && (status == "bad:nan" || status == "bad:mass" || status == "bad:nan,mass") {
 					// a NaN PARAMETER (not expressible in a JSON request, L1 only) is compared: the run guard
 					// says so on both sides; not a broken IEEE contract
 					out.Count("contract_nan_weird_params")
@@ -1244,11 +1289,14 @@ func (f c18FixedSrc) Uint64() uint64 { return uint64(f) }
 // c18Status joins the contract flags of a run; the only one that depends on r is `r*total <= total`.
 func c18Status(base []string, cum []float32, r float32) string {
 	flags := []string{}
-	nan := false
+	nan, mass := false, false
 	for _, f := range base {
-		if f == "nan" { // the run guard `runGood`: reported last, together with its r-dependent part
+		switch f {
+		case "nan": // the run guard `runGood`: reported after the others, together with its r-dependent part
 			nan = true
-		} else {
+		case "mass": // the residual guard `massFinite`: reported last
+			mass = true
+		default:
 			flags = append(flags, f)
 		}
 	}
@@ -1263,6 +1311,9 @@ func c18Status(base []string, cum []float32, r float32) string {
 	}
 	if nan {
 		flags = append(flags, "nan")
+	}
+	if mass {
+		flags = append(flags, "mass")
 	}
 	if len(flags) == 0 {
 		return "ok"
